@@ -10,7 +10,7 @@ from vmc.core import explore, sandbox
 from vmc.core.report import Report
 
 PROP = "C11"
-INPUT_LISTS = [[], [101], [101, 102], [101, 102, 103], [101, 102, 103, 104]]
+INPUT_LISTS = [[], [101], [101, 102], [101, 102, 103], [101, 102, 103, 104], [[201, 202]], [[], 101], [[301, 302], [303]]]
 
 # ---------------------------------------------------------------- operations (AST) and rendering
 Q = ("?",)
